@@ -1,12 +1,21 @@
 // C19 implementation side: the REAL momo::DataTable free-row list, observed through private access.
-//   seq <ops>            single-thread schedule replay; prints one line: an event per op with the canonical
-//                        id of the raw buffer, the free list as seen by walking the link words from
-//                        Crew::Data::freeRaws, the pool's allocate count, live item count
-//   seqt <ops>           the same on a table whose rows are ONE byte long (the buffer must still hold the link word)
-//   stress k rounds seed multi-threaded: k disposer threads destroy rows moved to them while the owner
-//                        creates / adds / extracts / removes (built with -fsanitize=thread / address in the thorough tier)
-// ops:  n (NewRow)  a<k> (Add detached #k)  x<i> (Extract table row i)  d<k> (destroy detached #k)
-//       r<i> (Remove table row i)  c (Clear)  m<k> (move detached #k into a fresh Row object)  s<k> (write items of detached #k)
+//   seq:<cfg> <ops>      single-thread schedule replay on table configuration <cfg>; prints one line: an event per op with
+//                        the canonical id of the raw buffer, the free list as seen by walking the link words from
+//                        Crew::Data::freeRaws, the pool's allocate count, live item count; the end token carries the measured
+//                        facts of the configuration (row size, pool block size/count, keepRowNumber) checked by prop.py
+//                        (`seq` = seq:big, `seqt` = seq:u8)
+//   cross                rows of two tables swapped / move-assigned across each other: each buffer must return to ITS table
+//   stress k rounds seed [cfg]  multi-threaded: k disposer threads destroy / move-assign / swap rows moved to them while the
+//                        owner creates / adds / extracts / removes / clears (built with -fsanitize=thread / address as well)
+// configurations:
+//   big  id:size_t + Tracked + std::string      u8 / i16 / u32 / p8 / p9  rows of 1 / 2 / 4 / 8 / 9..16 bytes (link word = 8)
+//   idx  big + unique hash index on id (TryAdd / TryInsert / TryUpdate can FAIL and leave the row detached)
+//   keep DataSettings<true> (row number stored in the raw)    pool DataTraits with MemPoolParams<2, 3> (2 blocks per buffer, cache 3)
+//   stat DataColumnListStatic<struct{char}> (Raw = the struct, 1 byte)
+// ops:  n NewRow   q<k> NewRow(copy of detached #k)   e NewRow whose item assignment throws   a<k> TryAdd   i<i>,<k> TryInsert
+//       p<i>,<k> TryUpdate(row i := detached #k)   x<i> Extract(i)   z<i> Extract(i, keepRowOrder=false)   r<i> Remove   c Clear
+//       d<k> destroy detached #k   m<k> move-construct + move-assign into the moved-from object   w<k>,<j> #k = move(#j) (old #k dies)
+//       y<k>,<j> swap   s<k> rewrite items   v move the TABLE into another object and back
 #include "private_access.h"
 #include "momo/DataTable.h"
 #include <condition_variable>
@@ -40,42 +49,124 @@ struct Tracked
 	static std::atomic<long> live, ctors, dtors;
 	std::string payload;
 	Tracked() : payload("a string long enough to live on the heap, not in the SSO buffer") { ++live; ++ctors; }
+	explicit Tracked(const char* s) : payload(s) { ++live; ++ctors; }
 	Tracked(const Tracked& t) : payload(t.payload) { ++live; ++ctors; }
 	Tracked(Tracked&& t) noexcept : payload(std::move(t.payload)) { ++live; ++ctors; }
-	Tracked& operator=(const Tracked&) = default;
-	Tracked& operator=(Tracked&&) = default;
+	Tracked& operator=(const Tracked& t) { if (t.payload == "poison") throw std::runtime_error("poison"); payload = t.payload; return *this; }
 	~Tracked() { --live; ++dtors; }
 };
 std::atomic<long> Tracked::live(0), Tracked::ctors(0), Tracked::dtors(0);
 
-typedef DataColumnList<DataColumnTraits<>, CountMM> ColumnList;
-typedef DataTable<ColumnList> Table;
-typedef Table::Row Row;
-
 static const DataColumn<size_t> colId("id");
 static const DataColumn<Tracked> colT("t");
 static const DataColumn<std::string> colS("s");
-
-static ColumnList makeColumns(MMStats* st)
-{
-	ColumnList cl{ CountMM(st) };
-	cl.Add(colId, colT, colS);
-	return cl;
-}
-
 static const DataColumn<uint8_t> colB("b");
+static const DataColumn<int16_t> colH("h");
+static const DataColumn<uint32_t> colW("w");
 
-struct Big      // three columns, non-trivial items on the heap
+// ---------------------------------------------------------------- configurations
+struct Dyn      // the dynamic column list; the column set is chosen at run time
 {
-	static ColumnList columns(MMStats* st) { return makeColumns(st); }
-	static void fill(Row& row, size_t n) { row[colId] = n; row[colS] = "row " + std::to_string(n) + " with a long tail to force a heap allocation"; }
-	static void rewrite(Row& row, size_t k) { row[colId] = 0xDEADBEEFu + k; row[colS] = "rewritten"; }
+	typedef DataColumnList<DataColumnTraits<>, CountMM> ColumnList;
+	typedef DataTable<ColumnList> Table;
+	typedef Table::Row Row;
+	static int variant;      // 0 big, 1 u8, 2 i16, 3 u32, 4 p8, 5 p9, 6 idx
+	static bool tracked() { return variant == 0 || variant == 6; }
+	static Table make(MMStats* st)
+	{
+		ColumnList cl{ CountMM(st) };
+		switch (variant)
+		{
+		case 1: cl.Add(colB); break;
+		case 2: cl.Add(colH); break;
+		case 3: cl.Add(colW); break;
+		case 4: cl.Add(colId); break;
+		case 5: cl.Add(colId, colB); break;
+		default: cl.Add(colId, colT, colS);
+		}
+		Table t(std::move(cl));
+		if (variant == 6) t.AddUniqueHashIndex(colId);
+		return t;
+	}
+	static void fill(Row& row, size_t n)
+	{
+		switch (variant)
+		{
+		case 1: row[colB] = uint8_t(n); break;
+		case 2: row[colH] = int16_t(n); break;
+		case 3: row[colW] = uint32_t(n); break;
+		case 4: row[colId] = n; break;
+		case 5: row[colId] = n; row[colB] = uint8_t(n); break;
+		default: row[colId] = n; row[colS] = "row " + std::to_string(n) + " with a long tail to force a heap allocation";
+		}
+	}
+	static void rewrite(Row& row, size_t k)
+	{
+		switch (variant)
+		{
+		case 1: row[colB] = uint8_t(0xA5 + k); break;
+		case 2: row[colH] = int16_t(-1 - (int)k); break;
+		case 3: row[colW] = 0xDEADBEEFu + (uint32_t)k; break;
+		case 4: row[colId] = ~size_t(0) - k; break;
+		case 5: row[colId] = ~size_t(0) - k; row[colB] = 0xFF; break;
+		default: row[colId] = variant == 6 ? 1000000 : 1000000 + k; row[colS] = "rewritten";     // idx: every rewritten row collides in the unique index
+		}
+	}
+	static bool throwingNew(Table& t)
+	{
+		if (!tracked()) return false;
+		try { Row r = t.NewRow(colT = Tracked("poison")); (void)r; } catch (const std::runtime_error&) { return true; }
+		return false;
+	}
+	static size_t rowSize(const Table& t) { return t.GetColumnList().GetTotalSize(); }
 };
-struct Tiny     // one byte per row: the raw buffer must still be able to hold the link word (pvCreateRawMemPool)
+int Dyn::variant = 0;
+
+struct Keep     // the row number is kept inside the raw
 {
-	static ColumnList columns(MMStats* st) { ColumnList cl{ CountMM(st) }; cl.Add(colB); return cl; }
+	typedef DataColumnList<DataColumnTraits<>, CountMM, DataItemTraits<CountMM>, DataSettings<true>> ColumnList;
+	typedef DataTable<ColumnList> Table;
+	typedef Table::Row Row;
+	MOMO_STATIC_ASSERT(ColumnList::Settings::keepRowNumber);
+	static bool tracked() { return false; }
+	static Table make(MMStats* st) { ColumnList cl{ CountMM(st) }; cl.Add(colB); return Table(std::move(cl)); }
 	static void fill(Row& row, size_t n) { row[colB] = uint8_t(n); }
-	static void rewrite(Row& row, size_t k) { row[colB] = uint8_t(0xA5 + k); }
+	static void rewrite(Row& row, size_t k) { row[colB] = uint8_t(0x5A + k); }
+	static bool throwingNew(Table&) { return false; }
+	static size_t rowSize(const Table& t) { return t.GetColumnList().GetTotalSize(); }
+};
+MOMO_STATIC_ASSERT(!Dyn::ColumnList::Settings::keepRowNumber);
+
+struct PoolTraits : public DataTraits { typedef MemPoolParams<2, 3> RawMemPoolParams; };
+struct Pool     // tiny pool buffers (2 blocks) with a cache of 3 free blocks: buffers come and go all the time
+{
+	typedef Dyn::ColumnList ColumnList;
+	typedef DataTable<ColumnList, PoolTraits> Table;
+	typedef Table::Row Row;
+	MOMO_STATIC_ASSERT(Table::RawMemPool::Params::blockCount == 2 && Table::RawMemPool::Params::cachedFreeBlockCount == 3);
+	static bool tracked() { return false; }
+	static Table make(MMStats* st) { ColumnList cl{ CountMM(st) }; cl.Add(colH); return Table(std::move(cl)); }
+	static void fill(Row& row, size_t n) { row[colH] = int16_t(n); }
+	static void rewrite(Row& row, size_t k) { row[colH] = int16_t(-7 - (int)k); }
+	static bool throwingNew(Table&) { return false; }
+	static size_t rowSize(const Table& t) { return t.GetColumnList().GetTotalSize(); }
+};
+MOMO_STATIC_ASSERT(Dyn::Table::RawMemPool::Params::blockCount == 32);
+
+struct OneChar { char c; };
+MOMO_DATA_COLUMN_STRUCT(OneChar, c);
+struct Stat     // static column list: Raw is the struct itself, one byte long
+{
+	typedef DataColumnListStatic<OneChar, DataColumnInfo<OneChar>, CountMM> ColumnList;
+	typedef DataTable<ColumnList> Table;
+	typedef Table::Row Row;
+	MOMO_STATIC_ASSERT((std::is_same<ColumnList::Raw, OneChar>::value) && sizeof(OneChar) < sizeof(void*));
+	static bool tracked() { return false; }
+	static Table make(MMStats* st) { return Table(ColumnList(CountMM(st))); }
+	static void fill(Row& row, size_t n) { row[c] = char('a' + n % 26); }
+	static void rewrite(Row& row, size_t k) { row[c] = char('A' + k % 26); }
+	static bool throwingNew(Table&) { return false; }
+	static size_t rowSize(const Table&) { return sizeof(OneChar); }
 };
 
 struct Ids
@@ -85,6 +176,7 @@ struct Ids
 };
 
 // the free list exactly as pvDeallocateFreeRaws would see it (bounded walk: a cycle is reported, not followed)
+template<typename Table>
 static std::string freeList(Table& t, Ids& ids, size_t bound)
 {
 	std::string s; void* p = t.mCrew.mData->freeRaws.load(); size_t n = 0;
@@ -98,91 +190,163 @@ static std::string freeList(Table& t, Ids& ids, size_t bound)
 	return s;
 }
 
-template<typename Cfg>
-static void runSeq(std::istringstream& is)
+static void two(const std::string& op, size_t& a, size_t& b)
 {
+	size_t comma = op.find(',');
+	a = op.size() > 1 ? (size_t)std::stoul(op.substr(1, comma == std::string::npos ? std::string::npos : comma - 1)) : 0;
+	b = comma == std::string::npos || comma + 1 >= op.size() ? 0 : (size_t)std::stoul(op.substr(comma + 1));
+}
+
+template<typename Cfg>
+static void runSeq(std::istringstream& is, const char* cfgName)
+{
+	typedef typename Cfg::Table Table; typedef typename Cfg::Row Row;
 	MMStats st; std::ostringstream out; bool first = true;
 	long live0 = Tracked::live.load();
+	size_t rowSize = 0, blockSize = 0, blockCount = 0; bool keep = Table::ColumnList::Settings::keepRowNumber;
 	{
-		Table table(Cfg::columns(&st));
+		Table table(Cfg::make(&st));
+		rowSize = Cfg::rowSize(table); blockSize = table.mRawMemPool.GetBlockSize(); blockCount = Table::RawMemPool::Params::blockCount;
 		Ids ids; std::vector<Row> det; size_t created = 0; std::string op;
 		auto emit = [&] (const std::string& ev) {
 			if (!first) out << ' '; first = false;
 			out << ev << "|fl=" << freeList(table, ids, created + 1) << "|pc=" << table.mRawMemPool.GetAllocateCount()
 				<< "|lv=" << (Tracked::live.load() - live0);
 		};
+		auto S = [] (int id) { return std::to_string(id); };
 		while (is >> op)
 		{
-			char c = op[0]; size_t k = op.size() > 1 ? (size_t)std::stoul(op.substr(1)) : 0;
+			char c = op[0]; size_t k = 0, j = 0; two(op, k, j);
 			if (c == 'n')
 			{
 				Row row = table.NewRow(); ++created;
-				int id = ids.of(row.GetRaw());
-				Cfg::fill(row, created);
-				det.push_back(std::move(row));
-				emit("N" + std::to_string(id));
+				int id = ids.of(row.GetRaw()); Cfg::fill(row, created);
+				det.push_back(std::move(row)); emit("N" + S(id));
 			}
-			else if (c == 'a' && !det.empty())
+			else if (c == 'q' && !det.empty())
 			{
-				k %= det.size(); int id = ids.of(det[k].GetRaw());
-				table.Add(std::move(det[k])); det.erase(det.begin() + k);
-				emit("A" + std::to_string(id));
+				Row row = table.NewRow(det[k % det.size()]); ++created;
+				int id = ids.of(row.GetRaw()); det.push_back(std::move(row)); emit("N" + S(id));
 			}
-			else if (c == 'x' && table.GetCount() > 0)
+			else if (c == 'e')
+			{
+				bool thrown = Cfg::throwingNew(table); if (thrown) ++created;
+				emit(thrown ? "Z" : "-");      // allocated (after a drain), failed, deallocated directly
+			}
+			else if ((c == 'a' || c == 'i') && !det.empty())
+			{
+				size_t pos = k; if (c == 'i') { pos = k % (table.GetCount() + 1); k = j; }
+				k %= det.size(); int id = ids.of(det[k].GetRaw());
+				auto res = (c == 'a') ? table.TryAdd(std::move(det[k])) : table.TryInsert(pos, std::move(det[k]));
+				if (res) { det.erase(det.begin() + k); emit("A" + S(id)); }
+				else emit("U" + S(id));            // refused by the unique index: the row stays detached and alive
+			}
+			else if (c == 'p' && !det.empty() && table.GetCount() > 0)
+			{
+				size_t pos = k % table.GetCount(); k = j % det.size();
+				int oldId = ids.of(table[pos].GetRaw()), id = ids.of(det[k].GetRaw());
+				auto res = table.TryUpdate(pos, std::move(det[k]));
+				if (res) { det.erase(det.begin() + k); emit("R" + S(oldId)); emit("A" + S(id)); }
+				else emit("U" + S(id));
+			}
+			else if ((c == 'x' || c == 'z') && table.GetCount() > 0)
 			{
 				k %= table.GetCount(); int id = ids.of(table[k].GetRaw());
-				det.push_back(table.Extract(k));
-				emit("X" + std::to_string(id));
+				det.push_back(table.Extract(k, c == 'x')); emit("X" + S(id));
 			}
 			else if (c == 'd' && !det.empty())
 			{
 				k %= det.size(); int id = ids.of(det[k].GetRaw());
 				det.erase(det.begin() + k);      // ~DataRow: the push
-				emit("D" + std::to_string(id));
+				emit("D" + S(id));
 			}
 			else if (c == 'r' && table.GetCount() > 0)
 			{
 				k %= table.GetCount(); int id = ids.of(table[k].GetRaw());
-				table.Remove(k);
-				emit("R" + std::to_string(id));
+				table.Remove(k); emit("R" + S(id));
 			}
 			else if (c == 'c')
 			{
 				std::string ev = "C";
-				for (size_t i = 0; i < table.GetCount(); ++i) ev += (i ? "," : "") + std::to_string(ids.of(table[i].GetRaw()));
-				table.Clear();
-				emit(ev);
+				for (size_t i = 0; i < table.GetCount(); ++i) ev += (i ? "," : "") + S(ids.of(table[i].GetRaw()));
+				table.Clear(); emit(ev);
 			}
 			else if (c == 'm' && !det.empty())
 			{
 				k %= det.size(); int id = ids.of(det[k].GetRaw());
-				{ Row moved(std::move(det[k])); det[k] = std::move(moved); }   // two moved-from destructors: must not push
-				emit("M" + std::to_string(id));
+				{ Row moved(std::move(det[k])); det[k] = std::move(moved); }   // move-assign INTO a moved-from object; two empty destructors
+				emit("M" + S(id));
+			}
+			else if (c == 'w' && det.size() > 1 && k % det.size() != j % det.size())
+			{
+				k %= det.size(); j %= det.size(); int oldId = ids.of(det[k].GetRaw());
+				det[k] = std::move(det[j]);       // the old row of #k dies inside the assignment: a push
+				det.erase(det.begin() + j);
+				emit("D" + S(oldId));
+			}
+			else if (c == 'y' && det.size() > 1)
+			{
+				k %= det.size(); j %= det.size();
+				if (k != j) { using std::swap; swap(det[k], det[j]); det[k].Swap(det[j]); det[j].Swap(det[k]); }
+				emit("M" + S(ids.of(det[k].GetRaw())));
 			}
 			else if (c == 's' && !det.empty())
 			{
 				k %= det.size(); int id = ids.of(det[k].GetRaw());
-				Cfg::rewrite(det[k], k);
-				emit("S" + std::to_string(id));
+				Cfg::rewrite(det[k], k); emit("S" + S(id));
+			}
+			else if (c == 'v')
+			{
+				Table other(std::move(table)); table = std::move(other);   // Crew data (the list head) must stay where the rows point
+				emit("-");
 			}
 			else
 				emit("-");
 		}
 		// epilogue: all detached rows die (pushes), then the table (pvDestroyRaws drains and destroys the rest)
 		std::string ev = "E";
-		for (size_t i = 0; i < det.size(); ++i) ev += (i ? "," : "") + std::to_string(ids.of(det[i].GetRaw()));
+		for (size_t i = 0; i < det.size(); ++i) ev += (i ? "," : "") + S(ids.of(det[i].GetRaw()));
 		det.clear();
 		emit(ev);
 		ev = "C";
-		for (size_t i = 0; i < table.GetCount(); ++i) ev += (i ? "," : "") + std::to_string(ids.of(table[i].GetRaw()));
+		for (size_t i = 0; i < table.GetCount(); ++i) ev += (i ? "," : "") + S(ids.of(table[i].GetRaw()));
 		table.Clear();
 		emit(ev);
 	}
-	out << " end|mm=" << st.bytes << "|ad=" << (long long)st.allocs - (long long)st.deallocs << "|lv=" << (Tracked::live.load() - live0);
+	out << " end|mm=" << st.bytes << "|ad=" << (long long)st.allocs - (long long)st.deallocs << "|lv=" << (Tracked::live.load() - live0)
+		<< "|cfg=" << cfgName << "|row=" << rowSize << "|block=" << blockSize << "|bc=" << blockCount << "|keep=" << (keep ? 1 : 0);
 	puts(out.str().c_str());
 }
 
+// ---------------------------------------------------------------- rows of two tables crossing each other
+static void runCross()
+{
+	typedef Dyn::Table Table; typedef Dyn::Row Row;
+	Dyn::variant = 0; MMStats sa, sb; long live0 = Tracked::live.load();
+	size_t ownA = 0, foreignA = 0, ownB = 0, foreignB = 0, pcA = 9, pcB = 9;
+	{
+		Table A(Dyn::make(&sa)), B(Dyn::make(&sb));
+		std::set<void*> rawsA, rawsB;
+		Row a1 = A.NewRow(), a2 = A.NewRow(), a3 = A.NewRow(); Row b1 = B.NewRow(), b2 = B.NewRow();
+		for (Row* r : { &a1, &a2, &a3 }) rawsA.insert(r->GetRaw());
+		for (Row* r : { &b1, &b2 }) rawsB.insert(r->GetRaw());
+		{
+			using std::swap;
+			swap(a1, b1);                       // a1 now holds B's buffer and must push it to B
+			Row t(std::move(a2)); a2 = std::move(b2);   // a2 (moved-from) receives B's row
+			b2 = std::move(t);                  // b2 (moved-from) receives A's row
+			a3.Swap(b1); a3.Swap(b1);           // there and back
+		}
+		{ Row x1(std::move(a1)), x2(std::move(a2)), x3(std::move(a3)), y1(std::move(b1)), y2(std::move(b2)); }   // all five die
+		for (void* p = A.mCrew.mData->freeRaws.load(); p != nullptr; p = internal::MemCopyer::FromBuffer<void*>(p)) (rawsA.count(p) ? ownA : foreignA)++;
+		for (void* p = B.mCrew.mData->freeRaws.load(); p != nullptr; p = internal::MemCopyer::FromBuffer<void*>(p)) (rawsB.count(p) ? ownB : foreignB)++;
+		A.Clear(); B.Clear(); pcA = A.mRawMemPool.GetAllocateCount(); pcB = B.mRawMemPool.GetAllocateCount();
+	}
+	printf("cross A=%zu/%zu B=%zu/%zu pcA=%zu pcB=%zu mm=%lld lv=%ld\n", ownA, foreignA, ownB, foreignB, pcA, pcB, sa.bytes + sb.bytes, Tracked::live.load() - live0);
+}
+
 // ---------------------------------------------------------------- multi-threaded stress
+template<typename Row>
 struct Chan
 {
 	std::mutex m; std::condition_variable cv; std::deque<std::vector<Row>> q; bool done = false;
@@ -197,25 +361,37 @@ struct Chan
 	void finish() { { std::lock_guard<std::mutex> g(m); done = true; } cv.notify_all(); }
 };
 
-static void runStress(std::istringstream& is)
+template<typename Cfg>
+static void runStress(size_t k, size_t rounds, unsigned long long seed, const char* cfgName)
 {
-	size_t k = 3, rounds = 200; unsigned long long seed = 1; is >> k >> rounds >> seed;
+	typedef typename Cfg::Table Table; typedef typename Cfg::Row Row;
 	MMStats st; long live0 = Tracked::live.load();
-	size_t created = 0, handed = 0, removed = 0, drains = 0; std::atomic<size_t> destroyed(0);
+	size_t created = 0, handed = 0, removed = 0, drains = 0; std::atomic<size_t> destroyed(0), assigned(0);
 	size_t pcEnd = 99;
 	{
-		Table table(makeColumns(&st));
-		std::vector<std::unique_ptr<Chan>> chans; for (size_t i = 0; i < k; ++i) chans.emplace_back(new Chan);
+		Table table(Cfg::make(&st));
+		std::vector<std::unique_ptr<Chan<Row>>> chans; for (size_t i = 0; i < k; ++i) chans.emplace_back(new Chan<Row>);
 		std::vector<std::thread> ths;
 		for (size_t i = 0; i < k; ++i)
 			ths.emplace_back([&, i] {
-				std::vector<Row> b;
+				std::vector<Row> b, slots; size_t cnt = 0;
 				while (chans[i]->get(b))
 				{
-					for (Row& r : b) { std::string s = r[colS]; (void)s; }   // the disposer may still read its rows
 					destroyed += b.size();
-					b.clear();          // ~DataRow for the whole batch: concurrent pushes
+					for (Row& r : b)
+					{
+						switch (cnt++ % 4)
+						{
+						case 0: break;                                   // dies with the batch
+						case 1: if (slots.size() < 4) { slots.push_back(std::move(r)); break; }
+							{ Row taken(std::move(slots[cnt % 4])); slots[cnt % 4] = std::move(r); ++assigned; } break;   // assign into a moved-from slot; `taken` dies
+						case 2: if (!slots.empty()) { slots[cnt % slots.size()] = std::move(r); ++assigned; } break;       // assign over a live row: it dies
+						default: if (!slots.empty()) { using std::swap; swap(slots[0], r); } break;                          // swap, then the batch kills the other one
+						}
+					}
+					b.clear();          // ~DataRow for the rest of the batch: concurrent pushes
 				}
+				slots.clear();
 			});
 		std::mt19937_64 rng(seed);
 		for (size_t round = 0; round < rounds; ++round)
@@ -228,20 +404,21 @@ static void runStress(std::istringstream& is)
 				void* h = table.mCrew.mData->freeRaws.load();
 				if (h != nullptr) ++drains;
 				Row row = table.NewRow(); ++created;
-				row[colId] = created; row[colS] = "stress row with a heap allocated string payload #" + std::to_string(created);
+				Cfg::fill(row, created);
 				switch (rng() % 4)
 				{
-				case 0: table.Add(std::move(row)); break;
+				case 0: if (!table.TryAdd(std::move(row))) { batches[rng() % k].push_back(std::move(row)); ++handed; } break;
 				default: batches[rng() % k].push_back(std::move(row)); ++handed; break;
 				}
 			}
 			// extract some table rows and hand them over as well; remove some directly
 			size_t ex = rng() % 4;
 			for (size_t j = 0; j < ex && table.GetCount() > 0; ++j)
-			{ batches[rng() % k].push_back(table.Extract(rng() % table.GetCount(), false)); ++handed; }
+			{ batches[rng() % k].push_back(table.Extract(rng() % table.GetCount(), rng() % 2 == 0)); ++handed; }
 			if (table.GetCount() > 0 && rng() % 3 == 0) { table.Remove(rng() % table.GetCount(), false); ++removed; }
 			for (size_t i = 0; i < k; ++i) if (!batches[i].empty()) chans[i]->put(std::move(batches[i]));
 			if (rng() % 16 == 0) table.Clear();
+			if (rng() % 64 == 0) { Table other(std::move(table)); table = std::move(other); }
 			if (rng() % 8 == 0) std::this_thread::yield();
 		}
 		for (auto& c : chans) c->finish();
@@ -249,9 +426,11 @@ static void runStress(std::istringstream& is)
 		table.Clear();
 		pcEnd = table.mRawMemPool.GetAllocateCount();
 	}
-	printf("stress k=%zu created=%zu handed=%zu destroyed=%zu drains=%zu pc=%zu mm=%lld ad=%lld lv=%ld\n", k, created, handed,
-		destroyed.load(), drains, pcEnd, st.bytes, (long long)st.allocs - (long long)st.deallocs, Tracked::live.load() - live0);
+	printf("stress k=%zu created=%zu handed=%zu destroyed=%zu drains=%zu pc=%zu mm=%lld ad=%lld lv=%ld cfg=%s assigned=%zu\n", k, created, handed,
+		destroyed.load(), drains, pcEnd, st.bytes, (long long)st.allocs - (long long)st.deallocs, Tracked::live.load() - live0, cfgName, assigned.load());
 }
+
+static const char* dynNames[] = { "big", "u8", "i16", "u32", "p8", "p9", "idx" };
 
 int main()
 {
@@ -259,9 +438,23 @@ int main()
 	while (std::getline(std::cin, line))
 	{
 		std::istringstream is(line); std::string cmd; is >> cmd;
-		if (cmd == "seq") runSeq<Big>(is);
-		else if (cmd == "seqt") runSeq<Tiny>(is);
-		else if (cmd == "stress") runStress(is);
+		std::string cfg = cmd == "seq" ? "big" : cmd == "seqt" ? "u8" : cmd.compare(0, 4, "seq:") == 0 ? cmd.substr(4) : "";
+		int dv = -1; for (int i = 0; i < 7; ++i) if (cfg == dynNames[i]) dv = i;
+		if (cmd == "cross") runCross();
+		else if (cmd == "stress")
+		{
+			size_t k = 3, rounds = 200; unsigned long long seed = 1; std::string sc = "big"; is >> k >> rounds >> seed >> sc;
+			int sv = -1; for (int i = 0; i < 7; ++i) if (sc == dynNames[i]) sv = i;
+			if (sv >= 0) { Dyn::variant = sv; runStress<Dyn>(k, rounds, seed, dynNames[sv]); }
+			else if (sc == "keep") runStress<Keep>(k, rounds, seed, "keep");
+			else if (sc == "pool") runStress<Pool>(k, rounds, seed, "pool");
+			else if (sc == "stat") runStress<Stat>(k, rounds, seed, "stat");
+			else puts("?");
+		}
+		else if (dv >= 0) { Dyn::variant = dv; runSeq<Dyn>(is, dynNames[dv]); }
+		else if (cfg == "keep") runSeq<Keep>(is, "keep");
+		else if (cfg == "pool") runSeq<Pool>(is, "pool");
+		else if (cfg == "stat") runSeq<Stat>(is, "stat");
 		else puts("?");
 		fflush(stdout);
 	}
